@@ -141,16 +141,17 @@ Proof.
 Qed.
 
 Lemma fn_accepts_lemma v :
-  forall s, vwf v = true -> no_nan v = true -> from_native v = Ok s ->
+  forall s, vwf v = true -> from_native v = Ok s ->
             wf s = true /\ conforms s v.
 Proof.
   induction v as [ | b | z | f | s0 | b | n | a us | o | l IH | d IH | | | t ] using value_ind';
-    intros s Hw Hn Hs; cbn [from_native] in Hs; try discriminate.
+    intros s Hw Hs; cbn [from_native] in Hs; try discriminate.
   - inversion Hs; subst. split; reflexivity.
   - inversion Hs; subst. split; [reflexivity|]. exists b. split; reflexivity.
   - inversion Hs; subst. split; [reflexivity|]. exists z. cbn. auto.
-  - inversion Hs; subst. split; [reflexivity|]. exists f. cbn in Hn. apply negb_true_iff in Hn.
-    cbn. repeat split; auto. apply isclose_refl. exact Hn.
+  - inversion Hs; subst. split; [reflexivity|]. exists f.
+    cbn. repeat split; auto. unfold float_value_ok. destruct (is_nan f) eqn:En; cbn; [reflexivity|].
+    apply isclose_refl. exact En.
   - inversion Hs; subst. split; [reflexivity|]. exists s0. cbn. unfold len_ok. cbn. repeat split; auto.
   - inversion Hs; subst. split; [reflexivity|]. exists b. split; reflexivity.
   - destruct (uuid_is_v4 n) eqn:E4; [|discriminate]. inversion Hs; subst.
@@ -160,11 +161,11 @@ Proof.
   - (* list *)
     destruct (rsequence (map (fun x => from_native x) l)) as [es| |] eqn:Er; simpl in Hs; try discriminate.
     inversion Hs; subst; clear Hs. apply rsequence_ok in Er.
-    cbn [vwf no_nan] in Hw, Hn. apply forallb_id_map' in Hw, Hn.
+    cbn [vwf] in Hw. apply forallb_id_map' in Hw.
     assert (Hall : Forall2 (fun x e => wf e = true /\ conforms e x) l es).
-    { clear - IH Hw Hn Er. induction Er as [|x e l es Hxe _ IHr]; constructor.
-      - inversion IH; inversion Hw; inversion Hn; subst. auto.
-      - inversion IH; inversion Hw; inversion Hn; subst. auto. }
+    { clear - IH Hw Er. induction Er as [|x e l es Hxe _ IHr]; constructor.
+      - inversion IH; inversion Hw; subst. auto.
+      - inversion IH; inversion Hw; subst. auto. }
     split.
     + cbn [wf]. rewrite elems_wf_map_Some. simpl. rewrite andb_true_r.
       rewrite map_map. apply forallb_id_map'.
@@ -180,14 +181,14 @@ Proof.
     destruct (rsequence (map (fun kv : key * value => rmap (fun s => (fst kv, s)) (from_native (snd kv))) d))
       as [ents| |] eqn:Er; simpl in Hs; try discriminate.
     inversion Hs; subst; clear Hs. apply rsequence_ok in Er. apply dict_ents_rel in Er.
-    cbn [vwf no_nan] in Hw, Hn. apply andb_true_iff in Hw as [Hnd Hw].
-    apply forallb_id_map' in Hw, Hn. apply nodup_keys_NoDup in Hnd.
+    cbn [vwf] in Hw. apply andb_true_iff in Hw as [Hnd Hw].
+    apply forallb_id_map' in Hw. apply nodup_keys_NoDup in Hnd.
     pose proof (no_kell_keys _ Ek) as Hnk.
     assert (Hkeys : map fst ents = map fst d) by (eapply Forall2_fst_map; exact Er).
     assert (Hall : Forall2 (fun kv e => fst e = fst kv /\ wf (snd e) = true /\ conforms (snd e) (snd kv)) d ents).
-    { clear - IH Hw Hn Er. induction Er as [|kv e d ents [Hk Hf] _ IHr]; constructor.
-      - inversion IH; inversion Hw; inversion Hn; subst. split; auto.
-      - inversion IH; inversion Hw; inversion Hn; subst. auto. }
+    { clear - IH Hw Er. induction Er as [|kv e d ents [Hk Hf] _ IHr]; constructor.
+      - inversion IH; inversion Hw; subst. split; auto.
+      - inversion IH; inversion Hw; subst. auto. }
     split.
     + unfold dict_of_natives. cbn [wf]. rewrite !andb_true_iff. repeat split.
       * rewrite forallb_map_c. apply forallb_forall. intros [k s] Hin. simpl.
